@@ -796,6 +796,54 @@ fn concurrent(run: &mut Run, init: &Init, progs: &[Vec<(String, Outcome)>], read
         boolc(panicked.load(Ordering::SeqCst)), seen.join(";"), coq_snap(&fin))
 }
 
+/// Race case: three clients, each the ONLY writer of one setting (quality / mode / stall guard),
+/// set it `rounds` times through the real dispatcher and after every acknowledged set read it
+/// back through `get_status` and `snapshot()`.  A set that its own client cannot see is counted.
+fn race_case(rounds: usize) -> String {
+    use std::sync::{Arc, Barrier};
+    let cfg = DynamicConfig::new();
+    let barrier = Arc::new(Barrier::new(3));
+    let mut lost = vec![0u64; 3];
+    let mut bad_ack = vec![0u64; 3];
+    std::thread::scope(|sc| {
+        let mut hs = vec![];
+        for k in 0..3usize {
+            let cfg = cfg.clone();
+            let barrier = barrier.clone();
+            hs.push(sc.spawn(move || {
+                let mut lost = 0u64;
+                let mut bad = 0u64;
+                barrier.wait();
+                for i in 0..rounds {
+                    let v = (i + k) % 2 == 0;
+                    let line = match k {
+                        0 => format!(r#"{{"jsonrpc":"2.0","id":{},"method":"set_quality","params":{{"enabled":{}}}}}"#, i, v),
+                        1 => format!(r#"{{"jsonrpc":"2.0","id":{},"method":"set_mode","params":{{"mode":"{}"}}}}"#, i, if v { "classic" } else { "enhanced" }),
+                        _ => format!(r#"{{"jsonrpc":"2.0","id":{},"method":"set_stall_deselect","params":{{"enabled":{}}}}}"#, i, v),
+                    };
+                    let ack: Option<serde_json::Value> = dispatch(&cfg, None, None, &line).and_then(|r| serde_json::from_str(&r.to_json()).ok());
+                    let acked = ack.as_ref().map(|j| j.get("result").is_some()).unwrap_or(false);
+                    if !acked { bad += 1; continue; }
+                    let st: Option<serde_json::Value> = dispatch(&cfg, None, None, r#"{"jsonrpc":"2.0","id":1,"method":"get_status"}"#).and_then(|r| serde_json::from_str(&r.to_json()).ok());
+                    let res = st.as_ref().and_then(|j| j.get("result")).cloned().unwrap_or(serde_json::Value::Null);
+                    let snap = cfg.snapshot();
+                    let (seen_status, seen_snap) = match k {
+                        0 => (res.get("quality_enabled").and_then(|x| x.as_bool()), snap.quality_enabled),
+                        1 => (res.get("mode").and_then(|x| x.as_str()).map(|m| m == "classic"), snap.mode.is_classic()),
+                        _ => (res.get("stall_deselect").and_then(|x| x.as_bool()), snap.stall_deselect),
+                    };
+                    if seen_status != Some(v) || seen_snap != v { lost += 1; }
+                }
+                (lost, bad)
+            }));
+        }
+        for (k, h) in hs.into_iter().enumerate() {
+            if let Ok((l, b)) = h.join() { lost[k] = l; bad_ack[k] = b; } else { bad_ack[k] = u64::MAX >> 1; }
+        }
+    });
+    format!("CRace {} {} {}", rounds, zlist(lost.iter().map(|&v| v as i128)), zlist(bad_ack.iter().map(|&v| v as i128)))
+}
+
 fn tally(run: &mut Run, who: &str, o: &Obs1) {
     let key = match &o.resp {
         None => if o.panic { "panic".to_string() } else { "no_response".to_string() },
@@ -961,6 +1009,14 @@ pub fn run(seed: u64, tier: &str, out: &Path, _extra: &[(String, String)]) -> st
         let text = concurrent(&mut run, &init, &progs, readers);
         run.count_n("conc:threads", nthreads as u64);
         run.push("concurrent", true, text);
+    }
+
+    // (d) single-writer-per-field races through the real dispatcher (lost-update detector)
+    for k in 0..(6 * scale) {
+        let rounds = if k % 2 == 0 { 4000 } else { 800 };
+        let text = race_case(rounds);
+        run.count_n("race:sets", 3 * rounds as u64);
+        run.push("race", true, text);
     }
 
     run.note(format!("timeout pool: {:?}", g.tmo_pool));
